@@ -185,8 +185,9 @@ fn oneshot_encode(ch: &mut Chooser, ctx: &mut Ctx, op_no: usize) {
     let adm = encode_adm(k, r, &lens);
     ctx.distinct(&[0x05E, u64::from(adm.is_empty()), n.cmp(&k) as u64, (b % 64 != 0) as u64, adm.first().map_or(0, err_code)]);
 
-    let iter_kind = ch.pick("os.enc.iterkind", 4);
-    ctx.count(["oneshot.iter_exact", "oneshot.iter_filter", "oneshot.iter_unsized", "oneshot.iter_owned"][iter_kind as usize]);
+    let iter_kind = ch.pick("os.enc.iterkind", 5);
+    ctx.count(["oneshot.iter_exact", "oneshot.iter_filter", "oneshot.iter_unsized", "oneshot.iter_owned", "oneshot.iter_reentrant"][iter_kind as usize]);
+    let nested_failures = std::cell::Cell::new(0u32);
     let got = ctx.guarded(false, || match iter_kind {
         0 => reed_solomon_simd::encode(k, r, &items),
         1 => reed_solomon_simd::encode(k, r, items.iter().filter(|_| true)),
@@ -194,12 +195,30 @@ fn oneshot_encode(ch: &mut Chooser, ctx: &mut Ctx, op_no: usize) {
             let mut it = items.iter();
             reed_solomon_simd::encode(k, r, std::iter::from_fn(move || it.next()))
         }
-        _ => reed_solomon_simd::encode(k, r, items.clone()),
+        3 => reed_solomon_simd::encode(k, r, items.clone()),
+        _ => {
+            let mut it = items.iter();
+            let nf = &nested_failures;
+            reed_solomon_simd::encode(
+                k,
+                r,
+                std::iter::from_fn(move || {
+                    if !nested_roundtrip_ok() {
+                        nf.set(nf.get() + 1);
+                    }
+                    it.next()
+                }),
+            )
+        }
     });
+    if nested_failures.get() > 0 {
+        ctx.viol(&["C10", "C09", "C06"], "oneshot-equals-streaming", "oneshot/nested-call-wrong".into(), format!("a one-shot encode/decode round trip made from inside the iterator of encode({k}, {r}, ..) gave a wrong result {} times", nested_failures.get()), false);
+        return;
+    }
     let got = match got {
         Ok(v) => v,
         Err(msg) => {
-            ctx.viol(&["C10", "C06"], "no-panic", format!("panic/oneshot-encode/{}", panic_sig(&msg)), format!("encode({k}, {r}, {n} shards) panicked: {msg}"), false);
+            ctx.viol(&["C10", "C09", "C06"], "no-panic", format!("panic/oneshot-encode/{}", panic_sig(&msg)), format!("encode({k}, {r}, {n} shards) panicked: {msg}"), false);
             return;
         }
     };
@@ -360,8 +379,9 @@ fn oneshot_decode(ch: &mut Chooser, ctx: &mut Ctx, op_no: usize) {
 
     // the arguments are `IntoIterator`s: the same items are handed over through iterators of different kinds
     // (exact size hint, no lower bound, unknown upper bound, owned items); the outcome must not depend on that
-    let iter_kind = ch.pick("os.dec.iterkind", 4);
-    ctx.count(["oneshot.iter_exact", "oneshot.iter_filter", "oneshot.iter_unsized", "oneshot.iter_owned"][iter_kind as usize]);
+    let iter_kind = ch.pick("os.dec.iterkind", 5);
+    ctx.count(["oneshot.iter_exact", "oneshot.iter_filter", "oneshot.iter_unsized", "oneshot.iter_owned", "oneshot.iter_reentrant"][iter_kind as usize]);
+    let nested_failures = std::cell::Cell::new(0u32);
     let got = ctx.guarded(false, || match iter_kind {
         0 => reed_solomon_simd::decode(k, r, orig.iter().map(|(i, s)| (*i, &s[..])), rec.iter().map(|(i, s)| (*i, &s[..]))),
         1 => reed_solomon_simd::decode(k, r, orig.iter().filter(|_| true).map(|(i, s)| (*i, &s[..])), rec.iter().filter(|_| true).map(|(i, s)| (*i, &s[..]))),
@@ -370,12 +390,39 @@ fn oneshot_decode(ch: &mut Chooser, ctx: &mut Ctx, op_no: usize) {
             let mut ri = rec.iter();
             reed_solomon_simd::decode(k, r, std::iter::from_fn(move || oi.next().map(|(i, s)| (*i, &s[..]))), std::iter::from_fn(move || ri.next().map(|(i, s)| (*i, &s[..]))))
         }
-        _ => reed_solomon_simd::decode(k, r, orig.clone(), rec.clone()),
+        3 => reed_solomon_simd::decode(k, r, orig.clone(), rec.clone()),
+        _ => {
+            // the caller's iterators call back into the one-shot functions while the outer call is running
+            // (lazily produced shards, e.g. a product code): the crate must be re-entrant on one thread
+            let mut oi = orig.iter();
+            let mut ri = rec.iter();
+            let nf = &nested_failures;
+            reed_solomon_simd::decode(
+                k,
+                r,
+                std::iter::from_fn(move || {
+                    if !nested_roundtrip_ok() {
+                        nf.set(nf.get() + 1);
+                    }
+                    oi.next().map(|(i, s)| (*i, &s[..]))
+                }),
+                std::iter::from_fn(move || {
+                    if !nested_roundtrip_ok() {
+                        nf.set(nf.get() + 1);
+                    }
+                    ri.next().map(|(i, s)| (*i, &s[..]))
+                }),
+            )
+        }
     });
+    if nested_failures.get() > 0 {
+        ctx.viol(&["C10", "C09", "C06"], "oneshot-equals-streaming", "oneshot/nested-call-wrong".into(), format!("a one-shot encode/decode round trip made from inside the iterator of decode({k}, {r}, ..) gave a wrong result {} times", nested_failures.get()), false);
+        return;
+    }
     let got = match got {
         Ok(v) => v.map(|m| m.into_iter().collect::<BTreeMap<usize, Vec<u8>>>()),
         Err(msg) => {
-            ctx.viol(&["C10", "C06"], "no-panic", format!("panic/oneshot-decode/{}", panic_sig(&msg)), format!("decode({k}, {r}, originals {o_meta:?}, recovery {r_meta:?}) panicked: {msg}"), false);
+            ctx.viol(&["C10", "C09", "C06"], "no-panic", format!("panic/oneshot-decode/{}", panic_sig(&msg)), format!("decode({k}, {r}, originals {o_meta:?}, recovery {r_meta:?}) panicked: {msg}"), false);
             return;
         }
     };
@@ -523,4 +570,13 @@ pub fn self_test() -> Result<(), String> {
     c(Family::Low, 61440, 4096, 2, &[UnsupportedShardCount { original_count: 61440, recovery_count: 4096 }])?;
     c(Family::Default, 65536, 1, 1, &[UnsupportedShardCount { original_count: 65536, recovery_count: 1 }, InvalidShardSize { shard_bytes: 1 }])?;
     Ok(())
+}
+
+
+/// A tiny one-shot round trip (2 originals, 1 recovery, 2-byte shards), used from inside iterators.
+fn nested_roundtrip_ok() -> bool {
+    let originals = [[0x12u8, 0x34], [0xABu8, 0xCD]];
+    let Ok(rec) = reed_solomon_simd::encode(2, 1, originals) else { return false };
+    let Ok(restored) = reed_solomon_simd::decode(2, 1, [(1usize, originals[1])], [(0usize, &rec[0])]) else { return false };
+    restored.len() == 1 && restored.get(&0).map(Vec::as_slice) == Some(&originals[0][..])
 }
